@@ -502,6 +502,9 @@ func execC08(c *Case, sc *Script, o *Obs) {
 	perElem := int64(2000) * int64(x.S+1)
 	maxNeeded := (int64(x.Need) + parWindow + 64) * perElem
 	b := Budgets{MaxYields: 4_000_000 + 3*maxNeeded, GraceYields: 200_000, GraceTime: int64(time.Second)}
+	if !x.Drop {
+		b.AbortAbove = int64(x.Need) + parWindow + 3000
+	}
 	judge := func(name string, r *RunOut) {
 		res := r.Res
 		h := r.Host
@@ -535,7 +538,7 @@ func execC08(c *Case, sc *Script, o *Obs) {
 			return
 		}
 		unboundedSig := "C08:demand-unbounded:parallel:head-of-line"
-		if !res.RootDone {
+		if !res.RootDone && !strings.HasPrefix(res.End, "aborted:") {
 			if par && !x.Fair {
 				o.add(name, unboundedSig, "evaluation did not finish within the yield budget: "+res.End)
 			} else {
